@@ -754,18 +754,25 @@ theorem nxCTNAT_ok (ln : Nat) (h10 : 10 ≤ ln) (hle : ln ≤ 65528) (v : V) (bs
   exact ⟨nx_of_nxw _ (by decide) bs (c (by omega)), b, by omega, by omega⟩
 theorem nxCTNAT_new_wf : nxhdr NXActionCTNAT.new =
     some (Gen.openflow13.ActionType_Experimenter, 16, Gen.openflow13.NxExperimenterID, Gen.openflow13.NXAST_NAT) := rfl
-/-- the range setters keep type, vendor and subtype and add the size of the range to the stored Length -/
+/-- the range setters keep type, vendor and subtype and store as Length `unpaddedLen()` of the presence bits after the
+    call: 16 + the widths of the ranges present, between 16 and 60 (so `nxCTNAT_ok` applies) -/
 theorem nxCTNAT_setRange_wf (idx bit : Nat) (add : UInt16) (x v v' : V) (ty ln vd sb : Nat)
     (hwf : nxhdr v = some (ty, ln, vd, sb)) (hs : NXActionCTNAT.setRange idx bit add x v = .ok v') :
-    nxhdr v' = some (ty, (n16 ln + add).toNat, vd, sb) := by
+    ∃ rp, nxhdr v' = some (ty, (NXActionCTNAT.unpaddedLen rp).toNat, vd, sb) ∧
+      16 ≤ (NXActionCTNAT.unpaddedLen rp).toNat ∧ (NXActionCTNAT.unpaddedLen rp).toNat ≤ 60 := by
+  have hb : ∀ rp, 16 ≤ (NXActionCTNAT.unpaddedLen rp).toNat ∧ (NXActionCTNAT.unpaddedLen rp).toNat ≤ 60 := by
+    intro rp
+    unfold NXActionCTNAT.unpaddedLen
+    (repeat' split) <;> decide
   unfold NXActionCTNAT.setRange at hs
   split at hs
-  · have e := nxhdr_inv _ _ _ _ _ _ _ hwf
+  · rename_i rp _ _ _ _ _ _
+    have e := nxhdr_inv _ _ _ _ _ _ _ hwf
     subst e
     simp only [NXActionHeader.length, ActionHeader.length, NXActionHeader.setLength, ActionHeader.setLength, Res.bind_ok,
       Res.pure_eq, Res.ok.injEq] at hs
     subst hs
-    rfl
+    exact ⟨rp ||| bit, rfl, hb _⟩
   · exact absurd hs (by simp)
 
 /-- NXActionConnTrack with a Nicira header of subtype NXAST_CT, any nested actions: declared = occupied
